@@ -45,6 +45,8 @@ type (
 		key       string // property key (disjoint alphabet) or "" for shorthand / spread
 		shorthand *ref
 		value     node
+		method    *function // key(params){body}; accessor "get"/"set" in front of it
+		accessor  string
 	}
 
 	// patterns
@@ -306,6 +308,14 @@ func (p *printer) expr(n node) {
 			}
 			if pr.shorthand != nil {
 				p.w(pr.shorthand.name)
+			} else if pr.method != nil {
+				if pr.accessor != "" {
+					p.w(pr.accessor + " ")
+				}
+				p.w(pr.key)
+				p.params(pr.method)
+				p.w(" ")
+				p.stmts(pr.method.body)
 			} else {
 				p.w(pr.key + ": ")
 				p.expr(pr.value)
